@@ -577,4 +577,27 @@ def _selection_rules(facts, rep, f):
         else:
             allok = False
             rep.inconclusive('LO.5', inst, n.shortloc(), f'the comparison is not in a recognised form: {v[1] if len(v) > 1 else v[0]}')
+    # predicates handed to std::find_if & co.: closures of get() that receive a table entry
+    try: f_end = int((f.d.get('endloc') or '').split(':')[1])
+    except Exception: f_end = f.line + 400
+    for g in facts.fns:
+        if not g.d.get('lambda') or g.file != f.file or not (f.line <= g.line <= f_end): continue
+        ent = {p_['decl'] for p_ in g.d['params'] if any(t_ in (p_['ctype'] + ' ' + p_.get('type', '')) for t_ in ('LanguageInfo', 'CountryInfo', 'LocaleInfo::_info'))}
+        if not ent: continue
+        ep = lambda y, ent=ent: y.k == 'member' and y.name in ('code', 'value') and y.n('base') is not None and strip(y.n('base')) is not None and strip(y.n('base')).k == 'ref' and strip(y.n('base')).decl in ent
+        for r_ in g.nodes():
+            if r_.k != 'return': continue
+            val = r_.n('value') if r_.n('value') is not None else r_.n('sub')
+            if val is None or not mentions_entry(val, ep): continue
+            v = classify(val, g, ep)
+            if v[0] == 'other': continue
+            n5 += 1
+            inst = f'predicate at line {r_.line - f.line:+d} of get(): `{val.text()[:70]}` selects by whole-string equality'
+            if v[0] == 'eq': rep.ok('LO.5', inst, r_.shortloc())
+            elif v[0] == 'prefix':
+                allok = False
+                rep.violation('LO.5', inst, v[3], f'the entry is compared over the first `{v[2].text()[:30]}` bytes only, and nothing tests that it ends there: every part that is a proper prefix of a table string is accepted, the empty part matches every entry', key='LO.5|prefix', fn=f.name)
+            else:
+                allok = False
+                rep.inconclusive('LO.5', inst, r_.shortloc(), f'the comparison is not in a recognised form: {v[1] if len(v) > 1 else v[0]}')
     if allok: rep.floor('selection conditions', n5, 3)
